@@ -10,8 +10,13 @@ package main
 import (
 	"encoding/json"
 	"fmt"
+	"net/http"
 	"net/http/httptest"
+	"net/url"
+	"os"
+	"runtime/debug"
 	"strings"
+	"sync"
 
 	"github.com/ysugimoto/falco/v2/ast"
 	"github.com/ysugimoto/falco/v2/interpreter"
@@ -38,7 +43,36 @@ func (m *mapResolver) Resolve(stmt *ast.IncludeStatement) (*resolver.VCL, error)
 func (m *mapResolver) Name() string           { return "map" }
 func (m *mapResolver) IncludePaths() []string { return nil }
 
+// loopback origin for the generated services (started on first use, lives as long as the worker)
+var (
+	originOnce sync.Once
+	originHost string
+	originPort string
+)
+
+func origin() (string, string) {
+	originOnce.Do(func() {
+		srv := httptest.NewServer(http.HandlerFunc(func(w http.ResponseWriter, r *http.Request) {
+			w.Header().Set("Cache-Control", "max-age=60")
+			w.Header().Set("X-Origin", "1")
+			w.WriteHeader(http.StatusOK)
+			w.Write([]byte("origin")) // nolint:errcheck
+		}))
+		u, _ := url.Parse(srv.URL)
+		originHost, originPort = u.Hostname(), u.Port()
+	})
+	return originHost, originPort
+}
+
 func simRun(args string) string {
+	if os.Getenv("IMPLRUN_TRACE") != "" {
+		defer func() {
+			if r := recover(); r != nil {
+				fmt.Fprintf(os.Stderr, "%v\n%s\n", r, debug.Stack())
+				panic(r)
+			}
+		}()
+	}
 	f := strings.Fields(args)
 	if len(f) != 2 {
 		return "badreq"
@@ -49,7 +83,12 @@ func simRun(args string) string {
 		if i == 0 {
 			r.main = name
 		}
-		r.modules[name] = unhex(hx)
+		src := unhex(hx)
+		if strings.Contains(src, "__BACKEND_HOST__") {
+			h, p := origin()
+			src = strings.ReplaceAll(strings.ReplaceAll(src, "__BACKEND_HOST__", h), "__BACKEND_PORT__", p)
+		}
+		r.modules[name] = src
 	}
 	ip := interpreter.New(icontext.WithResolver(r))
 	var out []string
